@@ -53,9 +53,56 @@ KNOWN_WITNESSES = {
 }
 
 
+def shuffles(threads):
+    """All interleavings of the given sequences (each keeps its own order)."""
+    if all(not t for t in threads):
+        yield []
+        return
+    for i, t in enumerate(threads):
+        if t:
+            rest = threads[:i] + [t[1:]] + threads[i + 1:]
+            for tail in shuffles(rest):
+                yield [(i, t[0])] + tail
+
+
+def interleaving_cases():
+    """Bounded exhaustive part of the quantifier: after deploying p1 (pinned to w1) and p2 on 3 workers, four
+    concurrent operations -- two manual migrations of p1 (to w2 and to w3), a teardown of the group, a failover of
+    w1 -- in every interleaving of their plan / commit phases and with every outcome of the two migrations
+    (2520 histories; the quick tier runs a seeded sample of 80)."""
+    base = [["register", 1, 4, 10, 0], ["register", 2, 4, 10, 0], ["register", 3, 4, 10, 0],
+            ["plan_deploy", [[1, 1, 1], [2, None, 1]]], ["commit_deploy", 0, [True, True]]]
+    out = []
+    for ok1 in (True, False):
+        for ok2 in (True, False):
+            threads = [[("plan", ["plan_migrate", 16, 0, 2]), ("commit", ["commit_migrate", None, ok1])],
+                       [("plan", ["plan_migrate", 16, 0, 3]), ("commit", ["commit_migrate", None, ok2])],
+                       [("plan", ["plan_teardown", 0]), ("commit", ["commit_teardown", None])],
+                       [("op", ["failover", 1, [True, True]])]]
+            for sh in shuffles(threads):
+                ops = list(base)
+                slot = {}
+                nplans = 1
+                for i, (kind, op) in sh:
+                    op = list(op)
+                    if kind == "plan":
+                        slot[i] = nplans
+                        nplans += 1
+                    elif kind == "commit":
+                        op[1] = slot[i]
+                    ops.append(op)
+                out.append((5, ops))
+    return out
+
+
 def gen_cases(run):
     rng = run.rng
     cases = list(CORPUS) + list(KNOWN_WITNESSES.values())
+    inter = interleaving_cases()
+    if run.tier == "quick":
+        inter = [inter[rng.below(len(inter))] for _ in range(80)]
+    cases += inter
+    run.extra["exhaustive_interleavings"] = len(inter)
     n = 500 if run.tier == "quick" else 12000
     for i in range(n):
         g = C.Gen(rng.fork(), known_ops=(i % 6 == 5), dishonest=(i % 10 == 9), interleave=(i % 4 != 3))
@@ -66,11 +113,12 @@ def gen_cases(run):
 def check(run):
     run.rule = ("histories of 6-25 coordinator operations (register/deregister/heartbeat/clock/sweep, plan and commit phases of deploy, teardown and "
                 "manual migration as separate steps with other operations in between, migrate, failover, drain, rebalance; every worker-call outcome scripted) "
-                "over <=3 workers and <=3 groups; non-trivial = history commits a deploy and changes a placement afterwards; distinct = distinct op list")
+                "over <=3 workers and <=3 groups, plus all 2520 interleavings x outcomes of two migrations, a teardown and a failover of one group (thorough; quick: 80 sampled); non-trivial = history commits a deploy and changes a placement afterwards; distinct = distinct op list")
     run.trusted += ["Coq 8.16.1 kernel + vm_compute",
                     "hand-written model coq/theories/Coord/Model.v tied by differential run (worker table, assigned lists, counts, placements, epochs, group status and every operation result compared after every step)",
                     "HashMap iteration orders of Coordinator.workers / pipeline_groups / placements are read from the implementation and passed to the model as inputs",
                     "Rust harness harness/crates/coord (loopback stub answering the workers' deploy endpoint with scripted outcomes; virtual clock by rewriting the public last_heartbeat field)",
+                    "REST mode: the same operations through cluster_routes (warp::test) with RbacConfig::disabled(); sweep / failover / clock act on the shared coordinator directly",
                     "Python driver checks/coord_common.py (generators, invariant oracle)"]
     run.assumptions += ["heartbeats report the coordinator's own running count and registrations report 0 (count part of the oracle is switched off for histories that do otherwise)",
                         "pipeline names inside one group spec are distinct", "usize counters do not overflow"]
@@ -116,6 +164,34 @@ def check(run):
             n_corr += 1
             if n_corr <= 3:
                 run.tie_broken("correspondence Coord/Model.v vs crates/varpulis-cluster coordinator on %s" % json.dumps(ops), C.first_diff(si, sm))
+    # ---- the same kind of histories through the REST handlers of api.rs (every request = plan + execute + commit)
+    rng = run.rng
+    acases = [(t, C.to_api_ops(ops)) for t, ops in CORPUS if not any(o[0].startswith("commit_") and i and not ops[i - 1][0].startswith("plan_") for i, o in enumerate(ops))]
+    for i in range(150 if run.tier == "quick" else 3000):
+        g = C.Gen(rng.fork(), known_ops=(i % 6 == 5), dishonest=False, interleave=False)
+        acases.append((rng.range(2, 6), C.to_api_ops(g.history(rng.range(4, 12)))))
+    aanswers = C.run_impl_api(binpath, acases)
+    amodel = C.run_model_api(run, "C32api", acases, aanswers)
+    for k, ((t, ops), ans, sm) in enumerate(zip(acases, aanswers, amodel)):
+        si = C.impl_str(ans)
+        kinds = C.kinds(ops)
+        run.case(("api", json.dumps(ops)) if "deploy" in kinds and any(x in kinds for x in ("manual_migrate", "failover", "drain", "rebalance", "teardown")) else None)
+        run.count("via=api")
+        for o in set(kinds):
+            run.count("api-op=" + o)
+        fails, classes, at = C.c32_judge(ops, ans)
+        if fails:
+            n_or += 1
+            run.count("oracle_fail")
+            if not run.match_known(classes) and len(run.violations) < 3:
+                run.violation("; ".join(fails)[:600], {"via": "api", "timeout": t, "ops": ops, "implementation": [s["res"] + "~" + C.state_str(s["state"]) for s in ans.get("steps", [])],
+                                                     "contradicts": "C32_consistent_under_any_interleaving in coq/theories/Coord/Props.v"}, classes=classes)
+            elif run.match_known(classes):
+                run.violation(fails[0], {}, classes=classes)
+        if sm is not None and si != sm:
+            n_corr += 1
+            if n_corr <= 3:
+                run.tie_broken("correspondence Coord/Model.v vs crates/varpulis-cluster api.rs handlers on %s" % json.dumps(ops), C.first_diff(si, sm))
     # every recorded class must be re-confirmed by its witness
     for cls, (t, ops) in KNOWN_WITNESSES.items():
         a = C.run_impl(binpath, [(t, ops)])[0]
@@ -131,7 +207,7 @@ def replay(run, path):
     r = json.load(open(path))["replay"]
     ok, bindir, lg = harness.build("vp-coord")
     binpath = os.path.join(bindir, "vp-coord")
-    a = C.run_impl(binpath, [(r["timeout"], r["ops"])])[0]
+    a = (C.run_impl_api if r.get("via") == "api" else C.run_impl)(binpath, [(r["timeout"], r["ops"])])[0]
     f, cl, _ = C.c32_judge(r["ops"], a)
     run.case(("replay",), {"ops": r["ops"]})
     run.case(("replay2",))
